@@ -288,37 +288,39 @@ Fixpoint exec_stmt (W : worlds) (s : stmt) (q : state) {struct s} : option (outc
       end
   end.
 
-Fixpoint exec_block (W : worlds) (b : list stmt) (q : state) {struct b} : option (outcome * state) :=
-  match b with
-  | [] => Some (ONormal, q)
-  | s1 :: tl =>
-      match exec_stmt W s1 q with
-      | Some (ONormal, q1) => exec_block W tl q1
-      | r => r
-      end
-  end.
+Definition exec_block (W : worlds) : list stmt -> state -> option (outcome * state) :=
+  fix blk (b : list stmt) (q : state) {struct b} : option (outcome * state) :=
+    match b with
+    | [] => Some (ONormal, q)
+    | s1 :: tl =>
+        match exec_stmt W s1 q with
+        | Some (ONormal, q1) => blk tl q1
+        | r => r
+        end
+    end.
 
 (* the loop of a for statement, as a function of its own *)
-Fixpoint exec_loop (W : worlds) (t : tgt) (it : isrc) (body : list stmt) (items : list val) (q : state)
-  {struct items} : option (outcome * state) :=
-  match items with
-  | [] => Some (ONormal, q)
-  | v :: rest =>
-      match accept W it v q with
-      | Some (true, q1) =>
-          match sbind t v (st_store q1) with
-          | Some s' =>
-              match exec_block W body (mkSt s' (st_own q1) (st_trace q1)) with
-              | Some (ONormal, q2) | Some (OCont, q2) => exec_loop W t it body rest q2
-              | Some (OBreak, q2) => Some (ONormal, q2)
-              | r => r
-              end
-          | None => None
-          end
-      | Some (false, q1) => exec_loop W t it body rest q1
-      | None => None
-      end
-  end.
+Definition exec_loop (W : worlds) (t : tgt) (it : isrc) (body : list stmt)
+  : list val -> state -> option (outcome * state) :=
+  fix loop (items : list val) (q : state) {struct items} : option (outcome * state) :=
+    match items with
+    | [] => Some (ONormal, q)
+    | v :: rest =>
+        match accept W it v q with
+        | Some (true, q1) =>
+            match sbind t v (st_store q1) with
+            | Some s' =>
+                match exec_block W body (mkSt s' (st_own q1) (st_trace q1)) with
+                | Some (ONormal, q2) | Some (OCont, q2) => loop rest q2
+                | Some (OBreak, q2) => Some (ONormal, q2)
+                | r => r
+                end
+            | None => None
+            end
+        | Some (false, q1) => loop rest q1
+        | None => None
+        end
+    end.
 
 (* =========================================================================================== *)
 (* Rule models, group A: `x = <display>` followed by statements that fill x, merged into one display
